@@ -125,10 +125,15 @@ ReachProv(EM, P, frontier, seen) ==
 
 ChainReach(EM, P, e) == ReachProv(EM, P, {e}, {e})
 
-AuthChainOK(EM, F, P, e) ==
+\* loc[x]: event x is allowed by those of its auth events the provider returns
+LocalOK(EM, F, P) == [x \in DOMAIN EM |-> Allow(EM, F, {a \in EM[x].auth : P[a] = "returns"}, x)]
+
+AuthChainOKWith(EM, P, loc, e) ==
     LET R == ChainReach(EM, P, e) IN
     /\ \A a \in CitedBy(EM, R) : P[a] # "errors"
-    /\ \A x \in R : Allow(EM, F, {a \in EM[x].auth : P[a] = "returns"}, x)
+    /\ \A x \in R : loc[x]
+
+AuthChainOK(EM, F, P, e) == AuthChainOKWith(EM, P, LocalOK(EM, F, P), e)
 
 (***************************************************************************)
 (* VerifyAuthRulesAtState(e) with S the state before e as the state        *)
@@ -148,10 +153,10 @@ AuthAtState(EM, F, e, S, av, pm) ==
 (* the event fails: valid event, signatures, auth chain, auth rules at the *)
 (* state before the event (validation permitted).                          *)
 (***************************************************************************)
-LoadClass(EM, F, P, e, S) ==
+LoadClass(EM, F, P, loc, e, S) ==      \* loc = LocalOK(EM, F, P), evaluated once for all inputs
     IF F[e] = "malformed" THEN "invalid"
     ELSE IF F[e] = "badsig" THEN "sig"
-    ELSE IF ~AuthChainOK(EM, F, P, e) THEN "chain"
+    ELSE IF ~AuthChainOKWith(EM, P, loc, e) THEN "chain"
     ELSE IF ~AuthAtState(EM, F, e, S, TRUE, "ok") THEN "rules"
     ELSE "ok"
 
@@ -159,7 +164,10 @@ LoadClass(EM, F, P, e, S) ==
 (* The property, stated on inputs and outputs only.                        *)
 (***************************************************************************)
 \* an event carries a signature / auth fault: it must never be passed on
-BadEvent(F, e) == F[e] \in {"badsig", "disallowed"} \/ (F[e] = "wrongroom" /\ E[e].type # "create")
+\* (an event of another room is at fault unless the create event it cites is of that room too: the sentence does
+\* not ask for the room of a response to be checked, only for events to be allowed by their auth events)
+BadEvent(F, e) == \/ F[e] \in {"badsig", "disallowed"}
+                  \/ E[e].type # "create" /\ RoomOf(F, e) # RoomOf(F, CreateId(E))
 \* an event and all events it cites are fault free: it must not be lost
 CleanEvent(F, e) == F[e] = NoFault /\ \A a \in E[e].auth : F[a] = NoFault
 
